@@ -86,6 +86,7 @@ type wlRun struct {
 	Overwrite int
 	// counters
 	ProduceAcks, CommitAcks, Rolls int
+	RegsOnMissing                  int
 }
 
 type producer struct {
@@ -94,7 +95,7 @@ type producer struct {
 	epoch int16
 	seq   map[tp]int32
 	inTxn bool
-	parts map[tp]bool // partitions written in the open transaction
+	parts map[tp]*topicInc // partitions written in the open transaction (and the topic incarnation first written)
 	stage []stagedCommit
 	// last batch per partition, for the duplicate probe
 	last map[tp]lastBatch
@@ -267,14 +268,16 @@ func (x *exec) produce(p *producer, topic string, part int32) error {
 		p.last[key] = lastBatch{raw: batch, base: base, inc: t}
 		if txn {
 			p.inTxn = true
-			p.parts[key] = true
+			if p.parts[key] == nil {
+				p.parts[key] = t
+			}
 		}
 	}
 	return nil
 }
 
 func (x *exec) newProducer(txid string) (*producer, error) {
-	p := &producer{txid: txid, seq: map[tp]int32{}, parts: map[tp]bool{}, last: map[tp]lastBatch{}}
+	p := &producer{txid: txid, seq: map[tp]int32{}, parts: map[tp]*topicInc{}, last: map[tp]lastBatch{}}
 	err := x.step("InitProducerID "+txid, func() (err error) {
 		p.pid, p.epoch, err = x.n.initPID(x.ctx, txid, -1, -1)
 		return err
@@ -333,7 +336,7 @@ func (x *exec) endTxn(p *producer, commit bool) error {
 		}
 	}
 	p.inTxn = false
-	p.parts = map[tp]bool{}
+	p.parts = map[tp]*topicInc{}
 	p.stage = nil
 	if p.epoch != oldEpoch {
 		p.seq = map[tp]int32{}
@@ -476,11 +479,31 @@ func (x *exec) cleanRestart(probes func() error) error {
 	if err != nil {
 		return fmt.Errorf("observe after restart: %w", err)
 	}
-	if diffs := diffObs(pre, post); len(diffs) > 0 {
-		for _, d := range diffs {
-			x.run.CleanFail = append(x.run.CleanFail, cleanFailure{"clean Close + restart changed state: " + d.Class, map[string]any{"workload": x.run.Name, "restart": x.run.Restarts, "difference": d.Detail}})
+	x.run.RegsOnMissing += pre.RegsOnMissingTopics
+	// partitions of a topic that was deleted (and possibly recreated) while
+	// an open transaction is still registered on the deleted incarnation
+	stale := map[tp]bool{}
+	for _, p := range x.producers {
+		if p.inTxn {
+			for key, inc := range p.parts {
+				if x.live(key.Topic) != inc {
+					stale[key] = true
+				}
+			}
 		}
-		return errProbe
+	}
+	for _, d := range diffObs(pre, post, stale) {
+		// recorded; the workload goes on (the reference history is not affected)
+		x.run.CleanFail = append(x.run.CleanFail, cleanFailure{"clean Close + restart changed state: " + d.Class, map[string]any{"workload": x.run.Name, "restart": x.run.Restarts, "difference": d.Detail}})
+	}
+	// a registration on a topic that does not exist at the restart is dropped
+	// by kfake (not judged, see RegsOnMissingTopics): no marker will be written
+	for _, p := range x.producers {
+		for key := range p.parts {
+			if x.live(key.Topic) == nil {
+				delete(p.parts, key)
+			}
+		}
 	}
 	if probes != nil {
 		return probes()
